@@ -164,9 +164,99 @@ def install_locale(scenario):
     return enc
 
 
+# ---- SaltedSet: iteration order of sets built with set()/frozenset() in the modules under test -------------
+# The iteration order of a set of *strings* depends on the interpreter's hash seed, i.e. it differs between two tool runs
+# (PYTHONHASHSEED is random by default).  Inside one simulated batch every node shares this interpreter's seed, so the
+# simulator owns that order instead: the names `set` / `frozenset` in the modules under test are bound to subclasses whose
+# iteration order is a seeded permutation (per node: `reseed_sets()` is called whenever a new process is simulated).
+import zlib as _zlib
+
+_SET_SALT = [0]
+
+
+def _okey(x):
+    if isinstance(x, str):
+        return _zlib.crc32(x.encode("utf-8", "surrogatepass"))
+    if isinstance(x, tuple):
+        h = 17
+        for y in x:
+            h = (h * 1000003) ^ _okey(y)
+        return h & 0x3FFFFFFFFFFFFFFF
+    try:
+        return hash(x)
+    except TypeError:
+        return 0
+
+
+def _mix64(z):
+    z &= 0xFFFFFFFFFFFFFFFF
+    z = ((z ^ (z >> 30)) * 0xBF58476D1CE4E5B9) & 0xFFFFFFFFFFFFFFFF
+    z = ((z ^ (z >> 27)) * 0x94D049BB133111EB) & 0xFFFFFFFFFFFFFFFF
+    return z ^ (z >> 31)
+
+
+def _salted_iter(base, self):
+    items = list(base.__iter__(self))
+    if len(items) > 1:
+        salt = getattr(self, "_salt", 0)  # the hash seed of the process that built the set
+        items.sort(key=lambda x: _mix64(_okey(x) ^ (salt * 0x9E3779B97F4A7C15)))
+    return iter(items)
+
+
+class SaltedSet(set):
+    __slots__ = ("_salt",)
+
+    def __init__(self, *a):
+        set.__init__(self, *a)
+        self._salt = _SET_SALT[0]
+
+    def __iter__(self):
+        return _salted_iter(set, self)
+
+
+class SaltedFrozenSet(frozenset):
+    __slots__ = ("_salt",)
+
+    def __new__(cls, *a):
+        self = frozenset.__new__(cls, *a)
+        self._salt = _SET_SALT[0]
+        return self
+
+    def __iter__(self):
+        return _salted_iter(frozenset, self)
+
+
+def reseed_sets(salt):
+    """A new simulated process: another hash seed, i.e. another iteration order for every string set."""
+    _SET_SALT[0] = salt & 0xFFFFFFFF
+
+
+def next_process():
+    """A new simulated process starts: it has its own hash seed."""
+    _NODE_COUNT[0] += 1
+    reseed_sets((_SET_SALT[0] * 1103515245 + 12345 + _NODE_COUNT[0]) & 0xFFFFFFFF)
+
+
+def install_salted_sets(scenario):
+    import importlib
+
+    reseed_sets(scenario.get("hash_salt", 0) ^ 0x5EED)
+    _NODE_COUNT[0] = 0
+    for name in _LOCALE_MODULES:
+        if name.startswith("esp_menuconfig") and "esp_menuconfig" not in sys.modules:
+            continue
+        try:
+            m = importlib.import_module(name)
+        except Exception:  # noqa: B902
+            continue
+        m.__dict__["set"] = SaltedSet
+        m.__dict__["frozenset"] = SaltedFrozenSet
+
+
 def new_kconfig(path, parser=1, policy=None, extra_env=None, renames=None):
-    """Boot a node: fresh report singleton, explicit environment."""
+    """Boot a node: fresh report singleton, explicit environment, its own string-set iteration order."""
     fresh_report()
+    next_process()
     e = {"KCONFIG_PARSER_VERSION": parser, "KCONFIG_DEFAULTS_POLICY": policy, "KCONFIG_REPORT_VERBOSITY": "quiet"}
     if extra_env:
         e.update(extra_env)
@@ -179,6 +269,7 @@ def new_kconfig(path, parser=1, policy=None, extra_env=None, renames=None):
 
 
 BOOT_CHOICE_DEFAULTS = {}
+_NODE_COUNT = [0]
 
 
 def injected_choices(k):
